@@ -111,7 +111,7 @@ class Sim:
             from digital_rf import drf_command
             import contextlib
             import io
-            argv = ["ringbuffer", rel if rel else self.root]
+            argv = ["ringbuffer", rel if rel else self.root] + (["-v"] if case.get("verbose") else [])
             if lim.get("size") is not None:
                 L_ = lim["size"]
                 argv += ["-z", {0: "%d" % L_, 1: "%dB" % L_, 2: ("%dKiB" % (L_ // 1024)) if L_ % 1024 == 0 else "%d" % L_}[case["cli"] % 3]]
@@ -131,10 +131,9 @@ class Sim:
             finally:
                 ringbuffer.DigitalRFRingbuffer.run = real_run
             self.rb = got[0]
-            self.rb.verbose = False
         else:
             self.rb = ringbuffer.DigitalRFRingbuffer(rel if rel else self.root, size=lim.get("size"), count=lim.get("count"),
-                                                     duration=lim.get("duration"), verbose=False, status_interval=None, **kw)
+                                                     duration=lim.get("duration"), verbose=bool(case.get("verbose")), status_interval=None, **kw)
         self.evroot = self.rb.path
         self.h = self.rb.event_handler
         self.model = {}  # abs path -> [group(abs), key, size]
@@ -235,6 +234,10 @@ def run_sim(case, fail):
             return r
 
         os.remove, os.rmdir = remove, rmdir
+        import contextlib
+        import io
+        quiet = contextlib.redirect_stdout(io.StringIO())
+        quiet.__enter__()
         try:
             limits = case["limits"]
             for si, op in enumerate(case["ops"]):
@@ -471,6 +474,7 @@ def run_sim(case, fail):
                         if d_ex:
                             fail("limit-not-restored:duration", "step %d %r group %s" % (si, op, g[1]))
         finally:
+            quiet.__exit__(None, None, None)
             os.remove, os.rmdir = real_remove, real_rmdir
             os.chdir(old_cwd)
             try:
@@ -558,6 +562,7 @@ def _cases(draw, tier):
     if t0 != T0:
         case["t0"] = t0
     case["cli"] = draw(st.sampled_from([0, 0, 1, 2, 3]))  # 0: constructed through the API; else through the command line
+    case["verbose"] = draw(st.booleans())  # progress reports on stdout: must not change what happens
     if draw(st.integers(0, 3)) == 0:
         keys = sorted({(t0 + s_ // 2) * 1000 + 500 * (s_ % 2) for s_ in range(slots)} | {(t0 + s_) * 1000 for s_ in range(slots)})
         a = max(0, draw(st.sampled_from(keys)) + draw(st.sampled_from([-1, 0, 0, 1])))
@@ -581,7 +586,103 @@ def strategy(tier):
     return _cases(tier)
 
 
+def run_live(case):
+    """The ringbuffer with its real observer threads (see vlib/live.py for how verdicts are taken): a count limit of 3 on a
+    tree that exists at start / arrives complete after the start / is deleted and replaced; newer files are then published
+    the way the writer does (tmp. name, rename)."""
+    import contextlib
+    import io
+    import shutil
+    import time
+    from digital_rf import ringbuffer
+    from vlib import live
+
+    res = Result()
+    res.nontrivial = True
+    res.cls("live:" + case["live"])
+    with rfharness.scratch("c16l") as base:
+        root = os.path.join(base, "data", "rb")
+        os.makedirs(os.path.join(base, "data"))
+        os.makedirs(os.path.join(base, "area"))
+        blob = os.path.join(base, "blob")
+        with open(blob, "wb") as f:
+            f.write(b"\0" * 1500)
+
+        def rel(i, ch="ch0"):
+            return os.path.join(ch, SUB, "rf@%d.000.h5" % (T0 + i))
+
+        def build(top, upto):
+            for ch in ("ch0", "ch1"):
+                os.makedirs(os.path.join(top, ch, SUB), exist_ok=True)
+                with open(os.path.join(top, ch, "drf_properties.h5"), "wb") as f:
+                    f.write(b"p" * 300)
+                for i in range(upto):
+                    live.publish(blob, os.path.join(top, rel(i, ch)))
+
+        def on_disk(ch):
+            d = os.path.join(root, ch, SUB)
+            return sorted(fn for fn in (os.listdir(d) if os.path.isdir(d) else []) if fn.startswith("rf@"))
+
+        def newest(n_total, ch):
+            return sorted("rf@%d.000.h5" % (T0 + i) for i in range(n_total))[-3:]
+
+        if case["live"] != "late-root":
+            build(root, 5)
+        out = io.StringIO()
+        with contextlib.redirect_stdout(out):
+            rb = ringbuffer.DigitalRFRingbuffer(root, count=3, size=None, verbose=bool(case.get("verbose")), status_interval=3600)
+            rb.start()
+        try:
+            with contextlib.redirect_stdout(out):
+                if case["live"] == "late-root":
+                    build(os.path.join(base, "area", "incoming"), 5)
+                    time.sleep(0.3)
+                    os.rename(os.path.join(base, "area", "incoming"), root)
+                elif case["live"] == "root-replaced":
+                    live.wait_for(lambda: on_disk("ch0") == newest(5, "ch0"), 10)
+                    shutil.rmtree(root)
+                    time.sleep(0.5)
+                    build(os.path.join(base, "area", "incoming"), 5)
+                    os.rename(os.path.join(base, "area", "incoming"), root)
+                time.sleep(0.3)
+                for i in (5, 6, 7):
+                    for ch in ("ch0", "ch1"):
+                        live.publish(blob, os.path.join(root, rel(i, ch)))
+                    time.sleep(0.05)
+
+                def settled(n_total):
+                    return all(on_disk(ch) == newest(n_total, ch) for ch in ("ch0", "ch1"))
+
+                if not live.wait_for(lambda: settled(8), 15):
+                    # is the pipeline alive?  one more (newest) file per channel; "handled" = the handler tracks it
+                    for ch in ("ch0", "ch1"):
+                        live.publish(blob, os.path.join(root, rel(8, ch)))
+                    handled = live.wait_for(lambda: all(os.path.join(root, rel(8, ch)) in rb.event_handler.records for ch in ("ch0", "ch1")), 15)
+                    if handled:
+                        time.sleep(1.0)
+                        if not settled(9):
+                            res.fail("live-limit-not-enforced:" + case["live"],
+                                     "count=3: after the newest file had been handled the channel directories hold %r / %r (expected the newest three)" % (
+                                         on_disk("ch0"), on_disk("ch1")))
+                    else:
+                        res.cls("live-inconclusive")
+                for ch in ("ch0", "ch1"):
+                    if not os.path.exists(os.path.join(root, ch, "drf_properties.h5")) and os.path.isdir(os.path.join(root, ch)):
+                        res.fail("live-properties-deleted:" + case["live"], ch)
+        finally:
+            with contextlib.redirect_stdout(out):
+                try:
+                    rb.stop()
+                    rb.observer.join(5)
+                except Exception:
+                    pass
+        res.evaluations = 16
+    return res
+
+
 def run_case(case):
+    if case.get("live"):
+        return run_live(case)
     res = Result()
     seen = set()
 
@@ -620,6 +721,9 @@ def directed_cases(tier):
             out.append({"nch": nch, "kinds": kinds, "slots": 6, "limits": lim, "ops":
                         [{"o": "create", "f": i, "size": 2048, "event": True} for i in (0, 1, 2, 3)] +
                         [{"o": "create", "f": 6, "size": 2048, "event": True}, {"o": "create", "f": 7, "size": 2048, "event": True}]})
+    # the real observer threads
+    for sc in ("existing-then-live", "late-root", "root-replaced"):
+        out.append({"live": sc, "verbose": sc == "late-root", "ops": [], "limits": {"count": 3}})
     # recordings that begin at the epoch: the oldest file of the group has time 0
     for lim in ({"count": 2}, {"size": 8192}, {"duration": 1000}):
         out.append({"nch": 1, "kinds": ["rf", "dmd"], "slots": 6, "limits": lim, "t0": 0, "ops":
